@@ -208,7 +208,7 @@ func runC46(c *fw.Ctx) {
 	c.Bound("line_texts", len(c46Texts))
 	c.Bound("cases_per_concatenated_file", group)
 	c.SetRule("all version assignments to the commits of each shape whose parent/child pairs all have a unique LCS alignment; go-git Blame of the tip vs reference model, the model being replayed against real git blame --porcelain on every case (concatenated 100 per file with constant separator blocks) and on a sample individually; non-trivial = at least one commit changes the file; distinct = (shape, per-line attribution vector, edit kinds) classes")
-	c.Assume("git 2.39.5 blame is the reference (--minimal on the concatenated files only, so that git's diff of a 700-line file is the minimal one; the individually blamed sample uses the default); histories in which some parent/child pair has several longest-common-subsequence alignments are excluded: there git's answer depends on its diff heuristic; all versions end with a newline; commit times are distinct and increase from parent to child; no renames")
+	c.Assume("git 2.39.5 blame is the reference (--minimal on the concatenated files only, so that git's diff of a 700-line file is the minimal one; the individually blamed sample uses the default); histories in which some parent/child pair has several longest-common-subsequence alignments are excluded: there git's answer depends on its diff heuristic; all versions end with a newline; commit times are distinct (two shapes have a parent younger than its child); no renames")
 
 	mkChain := func(n, maxL int) *c46Shape {
 		sh := &c46Shape{name: fmt.Sprintf("chain of %d (<= %d lines)", n, maxL), maxL: maxL, baseMaxL: -1}
@@ -229,6 +229,24 @@ func runC46(c *fw.Ctx) {
 	shapes = append(shapes,
 		&c46Shape{name: "merge M(X,Y), X older", parents: [][]int{{}, {0}, {0}, {1, 2}}, rank: []int{0, 1, 2, 3}, maxL: mergeL, baseMaxL: mergeBase},
 		&c46Shape{name: "merge M(X,Y), Y older", parents: [][]int{{}, {0}, {0}, {1, 2}}, rank: []int{0, 2, 1, 3}, maxL: mergeL, baseMaxL: mergeBase},
+	)
+
+	// Shapes on the far side of blame.go's queue shortcuts: a commit ABOVE the
+	// merge (the "remove the parent completely" loop needs a child that is
+	// itself identical to its child), an octopus (three items merged for one
+	// commit), a merge whose second parent descends from the first (the same
+	// commit reached at two depths), and skewed commit times (a parent YOUNGER
+	// than its child is popped before the other path reaches it, so the items of
+	// one commit are NOT merged and it is processed twice).
+	small := 1 // lines per version in the 5-commit shapes
+	c.Bound("five_commit_shapes_max_lines", small)
+	shapes = append(shapes,
+		&c46Shape{name: "tip T over merge M(X,Y), X older", parents: [][]int{{}, {0}, {0}, {1, 2}, {3}}, rank: []int{0, 1, 2, 3, 4}, maxL: small, baseMaxL: -1},
+		&c46Shape{name: "tip T over merge M(X,Y), Y older", parents: [][]int{{}, {0}, {0}, {1, 2}, {3}}, rank: []int{0, 2, 1, 3, 4}, maxL: small, baseMaxL: -1},
+		&c46Shape{name: "octopus M(X,Y,Z)", parents: [][]int{{}, {0}, {0}, {0}, {1, 2, 3}}, rank: []int{0, 3, 1, 2, 4}, maxL: small, baseMaxL: -1},
+		&c46Shape{name: "merge M(X,Y) with Y a child of X", parents: [][]int{{}, {0}, {1}, {1, 2}}, rank: []int{0, 1, 2, 3}, maxL: mergeL, baseMaxL: mergeBase},
+		&c46Shape{name: "merge M(X,Y), skewed times: B younger than X", parents: [][]int{{}, {0}, {0}, {1, 2}}, rank: []int{1, 0, 2, 3}, maxL: mergeL, baseMaxL: mergeBase},
+		&c46Shape{name: "merge M(X,Y), skewed times: M older than everything", parents: [][]int{{}, {0}, {0}, {1, 2}}, rank: []int{1, 2, 3, 0}, maxL: mergeL, baseMaxL: mergeBase},
 	)
 
 	// enumerate cases
@@ -698,6 +716,12 @@ func c46IsParentOrderPolicy(sh *c46Shape, vs [][]int, cs *c46Case, got []int) bo
 func c46Name(sh *c46Shape, ci int) string {
 	if len(sh.parents) == 4 && len(sh.parents[3]) == 2 {
 		return []string{"B", "X", "Y", "M"}[ci]
+	}
+	if len(sh.parents) == 5 && len(sh.parents[3]) == 2 {
+		return []string{"B", "X", "Y", "M", "T"}[ci]
+	}
+	if len(sh.parents) == 5 && len(sh.parents[4]) == 3 {
+		return []string{"B", "X", "Y", "Z", "M"}[ci]
 	}
 	return fmt.Sprintf("commit %d", ci+1)
 }
